@@ -339,9 +339,19 @@ func checkC01(w *World, r *Report) {
 	}
 
 	// ---------------------------------------------------------------- vesting escrow
+	// how an instalment is rounded is C09's business; the escrow equality needs the sweep, the remainder and the pairing
+	saveKeep := r.keep
+	notShare := func(rule, construct string) bool {
+		return !(rule == "VEST-SHARE" && strings.HasSuffix(construct, ":share"))
+	}
+	r.keep = notShare
+	if saveKeep != nil {
+		r.keep = func(rule, construct string) bool { return saveKeep(rule, construct) && notShare(rule, construct) }
+	}
 	vestingObligations(w, r, tm)
+	r.keep = saveKeep
 	// a reservation (or any transfer) whose failure is dropped leaves the record written without the coins behind it
-	r.Sub(checkC02, "MSG-PROP")
+	r.SubWhere(checkC02, moneyMoves, "MSG-PROP")
 }
 
 // innerAmount strips NewCoins(slice{NewCoin(denom, X)}) down to X (or the coin itself).
